@@ -63,7 +63,7 @@ func thoroughSeeds(c *Ctx, info *propInfo, repo string) map[string]any {
 	exe, _ := os.Executable()
 	results := make([]res, len(seeds))
 	var wg sync.WaitGroup
-	sem := make(chan struct{}, 8)
+	sem := make(chan struct{}, 14)
 	for i := range seeds {
 		wg.Add(1)
 		go func(i int) {
